@@ -450,6 +450,124 @@ def check_empty_range_guards(db, chk):
     chk.floor(R, "range-emptiness guards found in the exact indices", n, 1)
 
 
+def _behind(c, op_or_place, limit=200):
+    """Locals a value was copied / borrowed / projected from (field-sensitive through tuple aggregates, through the arguments
+    of calls, not into the payload of a Bound aggregate); also the Bound variants met and the blocks that assign them."""
+    from engine.cfg import op_place
+    start = op_or_place if isinstance(op_or_place, list) else op_place(op_or_place)
+    seen, variants, vblocks = set(), set(), {}
+    work = [start] if start is not None else []
+    while work and len(seen) < limit:
+        p = work.pop()
+        l = p[0]
+        fld = next((e["f"] for e in p[1:] if isinstance(e, dict) and "f" in e), None)
+        key = (l, fld if fld is not None and str(fld).isdigit() else None)
+        if key in seen:
+            continue
+        seen.add(key)
+        d = c.defs.get(l)
+        if not d:
+            continue
+        for df in d["whole"] + d["part"]:
+            if df[0] == "assign":
+                rv = df[3]["rv"]
+                if rv["r"] == "agg" and rv.get("tuple") and key[1] is not None and int(key[1]) < len(rv["ops"]):
+                    q = op_place(rv["ops"][int(key[1])])
+                    if q:
+                        work.append(q)
+                elif rv["r"] == "agg" and (rv.get("adt") or "").endswith("ops::Bound"):
+                    variants.add(rv["variant"])
+                    vblocks.setdefault(rv["variant"], set()).add(df[1])
+                elif rv["r"] == "agg":
+                    for o in rv["ops"]:
+                        q = op_place(o)
+                        if q:
+                            work.append(q)
+                elif rv["r"] == "ref":
+                    work.append(rv["place"])
+                elif rv["r"] in ("use", "cast") and op_place(rv.get("op")) is not None:
+                    work.append(op_place(rv["op"]))
+                else:
+                    variants.add("?")
+            elif df[0] == "call":
+                variants.add("?")
+                for a in df[2]["args"]:
+                    q = op_place(a)
+                    if q:
+                        work.append(q)
+    return {k[0] for k in seen}, variants, vblocks
+
+
+def check_range_call_guarded(db, chk):
+    """std's BTreeMap::range panics when start > end, and when start == end with both bounds excluded.  `i > 10 AND i < 5` is
+    an ordinary (empty) filter, so an index that hands the two bounds of a query to BTreeMap::range has to compare them first
+    on every path where both are bounded (the B-tree's pages_between is the positive instance)."""
+    R = "DOM-range-call-guarded"
+    chk.rule(R, "every BTreeMap::range((lower, upper)) in the exact indices whose two bounds can both be bounded is reached only "
+                "through an ordering comparison of the two bound values (or with one side Unbounded)")
+    n = 0
+    for f in sorted(db.fns.values(), key=lambda f: (f.file, f.line)):
+        if not f.focus or "lance-index/src/scalar/" not in f.file or f.file.endswith("expression.rs"):
+            continue
+        c = f.cfg
+        for b, t in c.calls():
+            nm = name_of(t)
+            if not ("BTreeMap" in nm and nm.endswith("::range")) or len(t["args"]) < 2:
+                continue
+            from engine.cfg import op_place
+            tp = op_place(t["args"][1])
+            d = c.single_def(tp[0]) if tp and len(tp) == 1 else None
+            if not (d and d[0] == "assign" and d[3]["rv"]["r"] == "agg" and d[3]["rv"].get("tuple") and len(d[3]["rv"]["ops"]) == 2):
+                chk.ob(R, "range-argument:%s" % f.path.split("::{closure")[0], False,
+                       "the argument of BTreeMap::range is not a (lower, upper) tuple built in this function: cannot be decided", f.loc(t["ln"]))
+                continue
+            sides = [_behind(c, o) for o in d[3]["rv"]["ops"]]
+            who = f.path.split("::{closure")[0].split("::")[-1]
+            if any(v == {"Unbounded"} for _, v, _ in sides):
+                chk.info("%s: BTreeMap::range with a constant Unbounded side (%s:%s)" % (who, f.file, t["ln"]))
+                continue
+            n += 1
+            chk.analysed(f)
+            avoid = set()
+            for _, _, vb in sides:
+                avoid |= vb.get("Unbounded", set())
+            cmps = set()
+            for bb, tt in c.calls():
+                cn = name_of(tt)
+                if not (cn.endswith(("::lt", "::le", "::gt", "::ge", "::cmp", "::partial_cmp")) and len(tt["args"]) == 2):
+                    continue
+                a0, a1 = _behind(c, tt["args"][0])[0], _behind(c, tt["args"][1])[0]
+                if (a0 & sides[0][0] and a1 & sides[1][0]) or (a0 & sides[1][0] and a1 & sides[0][0]):
+                    cmps.add(bb)
+            # the comparison has to decide: a branch on (a value computed from) its result with a way out that does not reach
+            # the range call
+            for x in sorted(c.reach0):
+                si = c.switch_info(x)
+                if not (si and si.get("place")):
+                    continue
+                org = c.origins(si["place"][0], transparent=lambda t_: False)
+                if not any(o[0] == "call" and o[2] in cmps for o in org):
+                    continue
+                if any(b not in c.reachable_from([y], include_start=True) for y in c.succ[x]):
+                    avoid.add(x)
+            related = sides[0][0] | sides[1][0]
+
+            def ef(x):
+                si = c.switch_info(x)
+                if si and si["kind"] == "enum" and (si["adt"] or "").endswith("ops::Bound") and si["place"] and "Unbounded" in si["label_to"]:
+                    if _behind(c, list(si["place"]))[0] & related:
+                        return [y for y in c.succ[x] if y != si["label_to"]["Unbounded"]]
+                return None
+            reach = c.reachable_from([0], include_start=True, avoid=sorted(avoid - {b}), edge_filter=ef)
+            chk.ob(R, "guarded:%s" % who, b not in reach,
+                   "%s hands two query bounds to BTreeMap::range; %s" % (
+                       f.path.split("::{closure")[0],
+                       "every path with both bounded passes a branch on a comparison of the bound values that can leave without the call" if b not in reach else
+                       "a path with both bounded reaches it without a deciding comparison of the bound values: an inverted range "
+                       "(`x > 10 AND x < 5`) panics inside std instead of selecting nothing"), f.loc(t["ln"]))
+    chk.floor(R, "BTreeMap::range calls on query bounds", n, 2)
+
+
 def _derives(c, start, target, limit=60):
     seen, work = set(), [start]
     from engine.cfg import op_place
@@ -486,6 +604,7 @@ def run(db, chk):
     check_null_guards(db, chk)
     check_range_translation(db, chk)
     check_empty_range_guards(db, chk)
+    check_range_call_guarded(db, chk)
     check_exact_indices(db, chk)
     chk.extra["exhaustive"] = True
     chk.info("sibling parsers without NULL guards (LabelListQueryParser; BloomFilterQueryParser always rechecks) are deviations listed for review, not violations")
